@@ -742,4 +742,49 @@ while w:
           u
   elif t: s
 ''',
+# 42 --------------------------------------------------------------------------------------------------------------
+'''\
+res = compute(alpha, (
+    beta + gamma
+))
+val = [first, (
+    second
+), third]
+if cond and (
+    other
+): pass
+x = call(a)(b, (
+   c
+), d=(
+   e.f
+))
+y = (
+    z
+).attr[(
+    idx
+)]
+w = not (
+    v
+)
+''',
+# 43 --------------------------------------------------------------------------------------------------------------
+'''\
+if a: b = 1; c = 2
+else: x = 1; y = 2; z = 3
+for i in j: k = i; l = k
+else: p = 1; q = 2
+while m: n = 1; o = 2
+else: r = 1; s = 2
+try: t = 1; u = 2
+except E: v = 1; w = 2
+else: aa = 1; bb = 2
+finally: cc = 1; dd = 2
+with e as f: g = 1; h = 2
+def fn(): i1 = 1; i2 = 2; return i1
+class Kl: j1 = 1; j2 = 2
+if a2:
+    pass
+elif b2: c2 = 1; d2 = 2
+else: e2 = 1; f2 = 2
+''',
 ]
